@@ -919,6 +919,10 @@ CORPUS = [
     # back a writable file
     ('F27', DEF, [W('.hidden', b'l1\r\nl2\r\n'), T(['.hidden'], method='hardlink'), RC(['.hidden'], no_parallel=True),
                   {'op': 'remove', 'targets': ['.hidden'], 'all_versions': True}, {'op': 'untrack', 'targets': ['.hidden']}]),
+    # F39 (fixed): carry-in --force of one path made the replaced object's inode writable: a sibling rechecked as hardlink, which
+    # shares that inode, became a writable file
+    ('F39', DEF, [W('.hidden', b'bin\x00three'), T(['.hidden'], no_parallel=True), {'op': 'copy', 'src': '.hidden', 'dst': 'd/noext2', 'method': 'copy'},
+                  RC(['.hidden'], method='reflink', force=True), RC(['d/noext2'], method='hardlink'), CI(['.hidden'], force=True, no_parallel=True)]),
     ('versions', DEF, [W('a.txt', b'v1\n'), T(['a.txt']), W('a.txt', b'v2\n'), CI(['a.txt']), W('a.txt', b'v3\n'), T(['a.txt']), {'op': 'delete', 'path': 'a.txt'}, RC(['a.txt'], method='hardlink')]),
     ('share', {'algo': 2, 'method': 'hardlink', 'tob': 'auto'}, [W('a.txt', b'dup\n'), W('b.txt', b'dup\n'), T(['a.txt', 'b.txt']), {'op': 'remove', 'targets': ['a.txt']},
                                                                   {'op': 'untrack', 'targets': ['a.txt']}, RC(['b.txt'], method='copy')]),
